@@ -2,7 +2,7 @@
 """Collect CAUGHT/MISSED lines of bin/seedtest.py logs into seeded/<id>/meta.json
 and print the kill matrix (markdown)."""
 import glob, json, os, re, sys
-logs = sys.argv[1:]
+logs = sorted(sys.argv[1:], key=os.path.getmtime)   # later runs override earlier ones
 res = {}
 for lg in logs:
     cur = None
